@@ -64,7 +64,7 @@ pub fn check(ctx: &Ctx) -> i32 {
         for &lead in &leads {
             for nv in 2..=3usize {
                 for na in 2..=3usize {
-                    for astep in [1024.0 / 48000.0, 0.02, 0.0] {
+                    for asteps in [vec![1024.0 / 48000.0], vec![0.02], vec![0.0], vec![0.0, 1024.0 / 48000.0], vec![0.02, 0.0]] {
                         // video in decode order at 30 fps; first frame presented cts0 later
                         let mut ops = vec![];
                         let first_pts = it.v0 + it.cts0;
@@ -81,8 +81,12 @@ pub fn check(ctx: &Ctx) -> i32 {
                         }
                         let mut ok = true;
                         let mut with_reject = vec![];
+                        let mut at_acc = first_pts + lead;
                         for j in 0..na {
-                            let at = first_pts + lead + j as f64 * astep;
+                            if j > 0 {
+                                at_acc += asteps[(j - 1) % asteps.len()];
+                            }
+                            let at = at_acc;
                             ok &= tick_is_robust(at);
                             ops.push(Op::WA { pts: T(at), data: Bytes::new(audio_frame(it.cfg.audio.as_ref().unwrap().codec, j as u32, 6).0) });
                             if j == 0 {
@@ -111,7 +115,7 @@ pub fn check(ctx: &Ctx) -> i32 {
         &tally,
         Meta {
             level: "model_checking",
-            rule: "every A/V history over: first video decode time {0, 1/30, 1, 10 s} x first video composition offset {0, +2 frames} x audio start minus first video presentation {0, 1 tick, 1024/48000, 0.25, 3 s} x 2-3 video frames x 2-3 audio frames x audio step {1024/48000, 0.02, 0} x {AAC, Opus} x both layouts x codecs; executed on the real muxer; per-track presentation timelines rebuilt from stts/ctts (+ edit list if present, empty edits and media_time honoured) and every audio sample's presentation time relative to the first video frame compared with the submitted difference (tolerance 1 tick). Distinct by output bytes.".into(),
+            rule: "every A/V history over: first video decode time {0, 1/30, 1, 10 s} x first video composition offset {0, +2 frames} x audio start minus first video presentation {0, 1 tick, 1024/48000, 0.25, 3 s} x 2-3 video frames x 2-3 audio frames x audio step pattern {1024/48000, 0.02, 0, (0, 1024/48000), (0.02, 0)} x {AAC, Opus} x both layouts x codecs; executed on the real muxer; per-track presentation timelines rebuilt from stts/ctts (+ edit list if present, empty edits and media_time honoured) and every audio sample's presentation time relative to the first video frame compared with the submitted difference (tolerance 1 tick). Distinct by output bytes.".into(),
             bound: "2-3 frames per track".into(),
             exhaustive: true,
             assumptions: vec!["the known finding C09/no-start-offset is matched only when neither track has an edit list and every audio sample is off by exactly the lost start offset; any other deviation is reported as a violation".into()],
